@@ -312,8 +312,8 @@ pub fn with_rec<R>(rec: &Rec, f: impl FnOnce(&log::Record) -> R) -> R {
     });
     // module path / file strings from STATIC_SITES travel the way the log macros hand them over: as `&'static str`
     // (`module_path_static` / `file_static`), which a record keeps apart from borrowed strings
-    let module_static = module.as_deref().and_then(|m| STATIC_SITES.iter().find(|s| **s == m).copied());
-    let file_static = file.as_deref().and_then(|x| STATIC_SITES.iter().find(|s| **s == x).copied());
+    let module_static = module.as_deref().and_then(|m| static_sites().iter().find(|s| **s == m).copied());
+    let file_static = file.as_deref().and_then(|x| static_sites().iter().find(|s| **s == x).copied());
     let build = |args: fmt::Arguments| -> R {
         let mut b = log::Record::builder();
         b.args(args).level(rec.level()).target(&target).line(rec.line);
@@ -359,6 +359,34 @@ pub fn with_rec<R>(rec: &Rec, f: impl FnOnce(&log::Record) -> R) -> R {
 /// Compile-time strings for module path and file (what `module_path!()` / `file!()` produce can hold anything a path
 /// can: backslashes on Windows, quotes, spaces, non-ASCII); a record built from them carries `&'static str`s.
 pub const STATIC_SITES: [&str; 10] = ["src\\bin\\tool.rs", "C:\\new\\table\\b.rs", "a\"b\".rs", "tab\there", "line\nbreak.rs", "\u{1}ctl\u{7f}", "app::\\w::m", "plain/static.rs", "\u{fc}n\u{ef}\\\u{107}.rs", ""];
+
+/// STATIC_SITES plus, for the longer ones, a leading part of the very same string: two `&'static str`s that start at
+/// the same address and differ in length (`module_path!()` cut down to its parent module, `file!()` without `.rs`).
+pub fn static_sites() -> &'static [&'static str] {
+    static ALL: std::sync::OnceLock<Vec<&'static str>> = std::sync::OnceLock::new();
+    ALL.get_or_init(|| {
+        let mut v: Vec<&'static str> = STATIC_SITES.to_vec();
+        for s in STATIC_SITES {
+            if s.len() >= 6 {
+                let mut cut = s.len() - 3;
+                while !s.is_char_boundary(cut) {
+                    cut -= 1;
+                }
+                let part: &'static str = &s[..cut];
+                if !v.contains(&part) {
+                    v.push(part);
+                }
+            }
+        }
+        v
+    })
+}
+
+/// The other string of `static_sites()` that starts at the same address.
+pub fn static_twin(s: &str) -> Option<&'static str> {
+    let me = static_sites().iter().find(|x| **x == s)?;
+    static_sites().iter().find(|x| x.as_ptr() == me.as_ptr() && x.len() != me.len()).copied()
+}
 
 thread_local! {
     static FIELD_BUFFERS: std::cell::RefCell<[String; 3]> = std::cell::RefCell::new([String::with_capacity(4096), String::with_capacity(4096), String::with_capacity(4096)]);
@@ -865,8 +893,8 @@ pub fn rec() -> impl Strategy<Value = Rec> {
         0u8..5,
         prop_oneof![6 => msg_pieces(), 1 => prop::sample::select(MSG_LITERALS.to_vec()).prop_map(|l| vec![l.to_string()])],
         rec_text(),
-        prop::option::weighted(0.7, prop_oneof![5 => rec_text(), 1 => prop::sample::select(STATIC_SITES.to_vec()).prop_map(|s| s.to_string())]),
-        prop::option::weighted(0.7, prop_oneof![5 => rec_text(), 1 => prop::sample::select(STATIC_SITES.to_vec()).prop_map(|s| s.to_string())]),
+        prop::option::weighted(0.7, prop_oneof![5 => rec_text(), 1 => prop::sample::select(static_sites().to_vec()).prop_map(|s| s.to_string())]),
+        prop::option::weighted(0.7, prop_oneof![5 => rec_text(), 1 => prop::sample::select(static_sites().to_vec()).prop_map(|s| s.to_string())]),
         prop::option::weighted(0.7, prop_oneof![Just(0u32), Just(1), Just(u32::MAX), any::<u32>()]),
         prop::collection::vec((mdc_key(), text(6)), 0..=4),
     )
